@@ -350,9 +350,3 @@ func (vc *VC) runDefers(x *ssa.RunDefers, st *State) {
 	}
 }
 
-// hooks for ghost protocols (tokens); default no-ops, refined in ghost.go
-func (vc *VC) sendHook(ch, val ssa.Value, st *State, pos token.Pos)                     {}
-func (vc *VC) recvHook(ch ssa.Value, v TV, st *State, pos token.Pos)                    {}
-func (vc *VC) selectRecvHook(ch ssa.Value, v TV, cond string, st *State, pos token.Pos) {}
-func (vc *VC) selectSendHook(ch, val ssa.Value, cond string, st *State, pos token.Pos)  {}
-func (vc *VC) goHook(x *ssa.Go, st *State)                                              {}
